@@ -310,62 +310,129 @@ Proof.
     unf. unfold no_lookups. destruct (pending (conns s2 q)); reflexivity.
 Qed.
 
-(* ---- Connection.message_received ------------------------------------------------------------------- *)
-Lemma Connection_message_received_eq : forall (sup : nat -> Z -> bytes -> BM bool) q op body s,
-  Connection_message_received sup q op body s
-  = if opt_none (ak (conns s q)) && negb (op =? op_auth) then BOk false (bad q s) else sup q op body s.
+(* ---- Connection.on_auth / on_auth_result ------------------------------------------------------------ *)
+Lemma to_resb_emb : forall r, to_resb (emb r) = (r, false).
+Proof. intros [s|s|s]; reflexivity. Qed.
+
+Lemma Connection_on_auth_eq : forall store async_store (pp : nat -> state -> res) q i dg s,
+  to_resb (Connection_on_auth store async_store pp q i dg s) = on_auth store async_store (pp q) q i dg s.
 Proof.
-  intros sup q op body s; unfold Connection_message_received; unf. unfold bad, p_error. cbn.
-  destruct (opt_none (ak (conns s q)) && negb (op =? op_auth)); [reflexivity|].
-  unfold bindB, retB. destruct (sup q op body s); reflexivity.
+  intros store async_store pp q i dg s; unfold Connection_on_auth, on_auth.
+  unfold fn, bindB at 1, with_server.
+  destruct (copen (conns s q)); cbn [negb]; [|reflexivity].
+  unfold ifB, bindB at 1, pureB. destruct async_store.
+  - unf. unfold p_enqueue. reflexivity.
+  - unfold seqB, bindB, call_stmt, bindB, fall, retB. rewrite Connection_authenticate_eq.
+    destruct (authenticate (pp q) q i dg (store i) s); reflexivity.
 Qed.
 
-(* ---- one frame: Connection.message_received over BaseProtocol's dispatch ---------------------------- *)
-(* BaseProtocol.message_received and Connection.on_auth are not translated by pytrans3 (the dispatch is translated, for
-   the client classes, by pytrans2; on_auth's awaitable handling is asyncio's): this is their hand-written reading, with
-   every handler it dispatches to being the TRANSLATED method. *)
+Lemma pop_eq : forall q s x rest, pending (conns s q) = x :: rest -> p_pop_pending q s = modc q (set_pending rest) s.
+Proof.
+  intros q s x rest H. unfold p_pop_pending, modc. apply state_ext; cbn; try reflexivity.
+  intro y. unfold upd. destruct (Nat.eqb y q); [|reflexivity]. rewrite H. reflexivity.
+Qed.
+
+(* the completion of the lookup registered first, for the (ident, digest) it was registered with *)
+Lemma Connection_on_auth_result_eq : forall (pp : nat -> state -> res) q r i dg rest s,
+  pending (conns s q) = (i, dg) :: rest ->
+  Connection_on_auth_result pp q r i dg s =
+  let s1 := modc q (set_pending rest) s in
+  match r with
+  | RRaise => BOk false (bad q s1)
+  | RLook l => match authenticate (pp q) q i dg l s1 with
+               | Ok s2 => BOk false s2 | Raise s2 => BOk false (cl q s2) | Fuel s2 => BFuel s2 end
+  end.
+Proof.
+  intros pp q r i dg rest s H. unfold Connection_on_auth_result.
+  unfold fn, bindB at 1, seqB at 1, bindB at 1, eff at 1. rewrite (pop_eq q s (i, dg) rest H). cbv zeta.
+  destruct r as [l|].
+  - unfold seqB, bindB, tryB, call_stmt, bindB, fall, retB, eff. rewrite Connection_authenticate_eq.
+    destruct (authenticate (pp q) q i dg l (modc q (set_pending rest) s)); reflexivity.
+  - unf. reflexivity.
+Qed.
+
+(* ---- BaseProtocol.message_received (dispatch) and Connection.message_received ------------------------ *)
 Section Frame.
 Variable store : ident -> lookup.
 Variable async_store : bool.
 
-Definition base_dispatch (ppk : nat -> state -> res) (q : nat) (op : Z) (body : bytes) : BM bool := fun s =>
-  if op =? op_auth then
-    match readauth body with
-    | Some (i, dg) =>
-        if negb (copen (conns s q)) then BRaise s
-        else if async_store then BOk true (pause_r q (modc q (fun c => set_pending (pending c ++ [(i, dg)]) c) s))
-        else Connection_authenticate ppk q i dg (store i) s
-    | None => BRaise s
-    end
-  else if op =? op_publish then
-    match readpublish body with Some (i, c, d) => Connection_on_publish q i c d s | None => BRaise s end
-  else if op =? op_subscribe then
-    match readsubscribe body with Some (i, c) => Connection_on_subscribe q i c s | None => BRaise s end
-  else if op =? op_unsubscribe then
-    match readunsubscribe body with Some (i, c) => Connection_on_unsubscribe q i c s | None => BRaise s end
-  else BRaise s.
+(* the model's dispatch for a connection that has an identity, or an OP_AUTH *)
+Definition dispatch (k : state -> res) (q : nat) (op : Z) (body : bytes) (s : state) : res * bool :=
+  if op =? 2 then
+    match readauth body with Some (i, dg) => on_auth store async_store k q i dg s | None => (Raise s, false) end
+  else if op =? 3 then
+    match readpublish body with Some (i, c, d) => (on_publish q i c d s, false) | None => (Raise s, false) end
+  else if op =? 4 then
+    match readsubscribe body with Some (_, c) => (on_subscribe q c s, false) | None => (Raise s, false) end
+  else if op =? 5 then
+    match readunsubscribe body with Some (_, c) => (on_unsubscribe q c s, false) | None => (Raise s, false) end
+  else (Raise s, false).
 
-Lemma to_resb_emb : forall r, to_resb (emb r) = (r, false).
-Proof. intros [s|s|s]; reflexivity. Qed.
+Lemma fn_call_ret : forall (m : BM bool) s, fn (call_ret m) s = m s.
+Proof. intros m s; unfold fn, call_ret, bindB, retB. destruct (m s); reflexivity. Qed.
 
-Theorem handle_src_eq : forall ppk q op body s,
-  to_resb (Connection_message_received (base_dispatch ppk) q op body s) = handle store async_store (ppk q) q op body s.
+Lemma BaseProtocol_message_received_eq : forall pp q op body s, 0 <= op <= 5 ->
+  to_resb (BaseProtocol_message_received store async_store pp q op body s) = dispatch (pp q) q op body s.
 Proof.
-  intros ppk q op body s. rewrite Connection_message_received_eq. unfold handle, base_dispatch.
-  change op_auth with 2. change op_publish with 3. change op_subscribe with 4. change op_unsubscribe with 5.
+  intros pp q op body s Hop. unfold BaseProtocol_message_received, dispatch.
+  change op_error with 0. change op_info with 1. change op_auth with 2. change op_publish with 3.
+  change op_subscribe with 4. change op_unsubscribe with 5.
+  unfold fn at 1, bindB at 1, ifB at 1, bindB at 1, pureB at 1.
+  destruct (Z.eqb_spec op 0) as [->|N0]; [reflexivity|].
+  unfold ifB at 1, bindB at 1, pureB at 1.
+  destruct (Z.eqb_spec op 1) as [->|N1]; [reflexivity|].
+  unfold ifB at 1, bindB at 1, pureB at 1.
+  destruct (Z.eqb_spec op 2) as [->|N2].
+  { destruct (readauth body) as [[i dg]|]; [|reflexivity].
+    rewrite <- Connection_on_auth_eq. unfold call_ret, bindB, retB.
+    destruct (Connection_on_auth store async_store pp q i dg s); reflexivity. }
+  unfold ifB at 1, bindB at 1, pureB at 1.
+  destruct (Z.eqb_spec op 3) as [->|N3].
+  { destruct (readpublish body) as [[[i c] d]|]; [|reflexivity].
+    unfold call_ret, bindB, retB. rewrite Connection_on_publish_eq. destruct (on_publish q i c d s); reflexivity. }
+  unfold ifB at 1, bindB at 1, pureB at 1.
+  destruct (Z.eqb_spec op 4) as [->|N4].
+  { destruct (readsubscribe body) as [[i c]|]; [|reflexivity].
+    unfold call_ret, bindB, retB. rewrite Connection_on_subscribe_eq. destruct (on_subscribe q c s); reflexivity. }
+  unfold ifB at 1, bindB at 1, pureB at 1.
+  destruct (Z.eqb_spec op 5) as [->|N5].
+  { destruct (readunsubscribe body) as [[i c]|]; [|reflexivity].
+    unfold call_ret, bindB, retB. rewrite Connection_on_unsubscribe_eq. destruct (on_unsubscribe q c s); reflexivity. }
+  lia.
+Qed.
+
+Lemma Connection_message_received_eq : forall pp q op body s,
+  Connection_message_received store async_store pp q op body s
+  = if opt_none (ak (conns s q)) && negb (op =? op_auth) then BOk false (bad q s)
+    else BaseProtocol_message_received store async_store pp q op body s.
+Proof.
+  intros pp q op body s; unfold Connection_message_received, fn, ifB, bindB, pureB.
+  destruct (opt_none (ak (conns s q)) && negb (op =? op_auth)).
+  - unf. unfold bad, p_error. reflexivity.
+  - unfold call_ret, bindB, retB. destruct (BaseProtocol_message_received store async_store pp q op body s); reflexivity.
+Qed.
+
+(* one frame of a well-formed opcode (the Unpacker yields no other): Connection.message_received is the model's handle *)
+Theorem handle_src_eq : forall pp q op body s, 0 <= op <= 5 ->
+  to_resb (Connection_message_received store async_store pp q op body s) = handle store async_store (pp q) q op body s.
+Proof.
+  intros pp q op body s Hop. rewrite Connection_message_received_eq. unfold handle.
+  change op_auth with 2.
   destruct (op =? 2) eqn:E2.
-  - rewrite andb_false_r.
-    destruct (readauth body) as [[i dg]|]; [|reflexivity].
-    unfold on_auth. destruct (copen (conns s q)); cbn [negb]; [|reflexivity].
-    destruct async_store; [reflexivity|].
-    rewrite Connection_authenticate_eq. apply to_resb_emb.
+  - rewrite andb_false_r. rewrite BaseProtocol_message_received_eq by exact Hop. unfold dispatch. rewrite E2. reflexivity.
   - rewrite andb_true_r. destruct (ak (conns s q)) as [me|]; cbn [opt_none]; [|reflexivity].
-    destruct (op =? 3).
-    { destruct (readpublish body) as [[[i c] d]|]; [|reflexivity]. rewrite Connection_on_publish_eq. apply to_resb_emb. }
-    destruct (op =? 4).
-    { destruct (readsubscribe body) as [[i c]|]; [|reflexivity]. rewrite Connection_on_subscribe_eq. apply to_resb_emb. }
-    destruct (op =? 5).
-    { destruct (readunsubscribe body) as [[i c]|]; [|reflexivity]. rewrite Connection_on_unsubscribe_eq. apply to_resb_emb. }
-    reflexivity.
+    rewrite BaseProtocol_message_received_eq by exact Hop. unfold dispatch. rewrite E2. reflexivity.
 Qed.
 End Frame.
+
+(* ---- Connection.connection_made ------------------------------------------------------------------------ *)
+Lemma Connection_connection_made_eq : forall bname q n s, made (conns s q) = false ->
+  Connection_connection_made bname q (p_new_conn q n s) = BOk false (do_connect bname q n s).
+Proof.
+  intros bname q n s H. unfold Connection_connection_made, do_connect. rewrite H.
+  unf. unfold p_new_conn, p_register, p_g_made, p_g_conn, logA, modc. cbn [conns set_ids set_conns set_alog set_g_conn set_g_made].
+  rewrite !upd_eq. cbn [copen set_copen set_nonce set_made conn0 nonce].
+  unfold wr, modc. cbn [conns set_ids set_conns set_alog set_g_conn set_g_made]. rewrite !upd_eq. cbn.
+  f_equal. apply state_ext; cbn; try reflexivity.
+  intro x. rewrite !upd_same. reflexivity.
+Qed.
